@@ -11,7 +11,10 @@ from harness.common import MachineryError
 
 DRIVER = 'drivers/c08_clock.py'
 U = 1024
-DELTAS = [0, 128, 128, 256, 256, 512, 1024, 2048, -128]      # a negative delay = already due
+DELTAS = [0, 128, 128, 256, 256, 512, 1024, 2048, -128]      # a negative delay = already due (calls from threads only)
+DELTAS_POS = [d for d in DELTAS if d >= 0]     # returned deltas and calls from inside tasks: AppClock wakes a whole
+                                               # batch before looking at what the batch scheduled (documented), so an
+                                               # entry put into the past from inside it cannot come out in time order
 
 
 def gen_program(rnd, pid, small=False):
@@ -36,7 +39,7 @@ def gen_program(rnd, pid, small=False):
     def res():
         x = rnd.random()
         if x < 0.45:
-            return ['ret', rnd.choice(DELTAS)]
+            return ['ret', rnd.choice(DELTAS_POS)]
         if x < 0.65:
             return ['none']
         if x < 0.8:
@@ -49,7 +52,7 @@ def gen_program(rnd, pid, small=False):
         ops = []
         if free and rnd.random() < 0.25:
             t = free.pop()
-            ops.append(['sched', tclock[t], t, rnd.choice(DELTAS)])
+            ops.append(['sched', tclock[t], t, rnd.choice(DELTAS_POS)])
         if rnd.random() < 0.04:
             ops.append(['clear', rnd.choice(clocks)])
         c = tclock[me]
